@@ -292,7 +292,7 @@ def go_build(cmd, race=False, tags="verif", timeout=1200):
 
 # ------------------------------------------------------------------ static tie: source skeleton
 
-def skeleton_tie(prop, set_name):
+def skeleton_tie(prop, set_name, only=None):
     """Static tie shared by the engines with a hand-written model: the syntactic skeleton (harness/cmd/ruextract-core,
     file set `set_name`) of the modelled functions in the current tree must be the one the model was written against
     (engines/skeleton_<set>.json, regenerated by tools/mkskeleton.py).  Returns (obligation dict, failures)."""
@@ -310,6 +310,10 @@ def skeleton_tie(prop, set_name):
             "ruextract-core cannot parse the modelled files of the current tree: " + err[-800:], {"stderr": err[-3000:]}, False)]
     cur = {f["name"]: f for f in json.loads(out)}
     exp = {f["name"]: f for f in json.loads(exp_path.read_text())["functions"]}
+    if only:   # a property that depends on a few functions of a set only
+        cur = {k: v for k, v in cur.items() if any(o in k for o in only)}
+        exp = {k: v for k, v in exp.items() if any(o in k for o in only)}
+        name += " [" + ", ".join(only) + "]"
     fails = []
     for nm in sorted(set(cur) | set(exp)):
         a, b = exp.get(nm), cur.get(nm)
